@@ -23,7 +23,8 @@ meta_p = f'{dst}/meta.json'
 meta = json.load(open(meta_p)) if os.path.exists(meta_p) else dict(
     property=pid, round=4, change=letter,
     source='independent sub-agent given only the property text and a scratch worktree (fourth round: two changes per property, away from the central function, needing something specific to manifest)')
-meta['confirmed'] = dict(tests_with_change=out.get('tests'), demo_with_change_exit=out.get('demo_with_change_exit'),
+_prev = (meta.get('confirmed') or {}).get('tests_with_change')
+meta['confirmed'] = dict(tests_with_change=out.get('tests') or _prev, demo_with_change_exit=out.get('demo_with_change_exit'),
                          demo_pristine_exit=out.get('demo_pristine_exit'))
 meta['ran'] = f'tools/seedcheck.py seeded/{pid}{suffix} <scratch worktree> {props}'
 if 'check_result' in meta and 'check_result_first_run' not in meta:
